@@ -1,8 +1,19 @@
 import Mp.CueSteps
 import Mp.CueProofs
+import Mp.Tree
 /-! C13 — CueValidate accepts a key path iff the schema declares it: property theorems (proved in Mp.CueProofs). -/
 #print axioms Mp.fvp_snoc
 #print axioms Mp.validate_walk
 #print axioms Mp.validate_walk_steps
 #print axioms Mp.validateSteps_keys
 #print axioms Mp.specWalkS_keys
+#print axioms Mp.Tree.hasErrors_step
+#print axioms Mp.Tree.call_hasErrors
+#print axioms Mp.Tree.param_hasErrors
+#print axioms Mp.Tree.call_param_anywhere
+#print axioms Mp.Tree.logic_hasErrors
+#print axioms Mp.Tree.path_hasErrors
+#print axioms Mp.Tree.hasErrors_sound
+#print axioms Mp.Tree.hasErrors_complete
+#print axioms Mp.Tree.hasErrors_eq_anyNode
+#print axioms Mp.Tree.ident_filter_not_consulted
